@@ -132,3 +132,13 @@ func (r *Recorder) Flush() { r.Flushed++ }
 
 // WSDialHeader returns the header passed to the i-th websocket dial (engine only).
 func WSDialHeader(i int) http.Header { return nil }
+
+// M-psl: the public-suffix list is embedded binary data that the engine cannot
+// see; the model says "the last label is the public suffix" (so a.b.example and
+// example share a registrable domain only when equal up to that label). The
+// real net/http/cookiejar code is interpreted on top of it.
+func InstallPublicSuffixModel() {
+	Stub("golang.org/x/net/publicsuffix.PublicSuffix", func(domain string) (string, bool) {
+		return domain[1+strings.LastIndex(domain, "."):], false
+	})
+}
